@@ -4,7 +4,7 @@
    modular square root (returned root squares back; complete for p = 3 mod 4
    relative to Euler's criterion), Jacobi loop invariant relative to the
    reciprocity laws. *)
-From Coq Require Import List ZArith NArith Lia Bool Znumtheory Zeuclid.
+From Coq Require Import List ZArith NArith Lia Bool Znumtheory Zeuclid Zpow_facts.
 From Coq Require Import ZifyN ZifyNat ZifyBool.
 Require Import V.base.Bytes V.model.NumTheory.
 Import ListNotations.
@@ -391,17 +391,20 @@ Proof.
   assert (Emp : (h * q + mq) mod p = mp mod p).
   { (* h*q = (mp - mq) * (qinv*q) = mp - mq  (mod p) *)
     assert (Hd : (p | h * q + mq - mp)).
-    { unfold h.
-      rewrite (Z.mod_eq (_ * qinv) p) by lia.
-      rewrite (Z.mod_eq (mp - mq) p) by lia.
-      rewrite (Z.mod_eq (qinv * q) p) in Hinv by lia.
-      set (k1 := (mp - mq) / p) in *. set (k3 := qinv * q / p) in *.
-      set (k2 := ((mp - mq - p * k1) * qinv) / p) in *.
-      exists ((mp - mq) * k3 - k1 * qinv * q - k2 * q).
-      replace (qinv * q) with (1 + p * k3) in * by lia.
-      assert (E : qinv * q = 1 + p * k3) by lia.
-      transitivity ((mp - mq) * (qinv * q) - p * k1 * (qinv * q) - p * k2 * q + mq - mp); [ring|].
-      rewrite E. ring. }
+    { pose proof (Z.div_mod (mp - mq) p ltac:(lia)) as E1.
+      pose proof (Z.div_mod (((mp - mq) mod p) * qinv) p ltac:(lia)) as E2.
+      pose proof (Z.div_mod (qinv * q) p ltac:(lia)) as E3. rewrite Hinv in E3.
+      fold h in E2.
+      remember ((mp - mq) mod p) as a eqn:Ea.
+      remember ((mp - mq) / p) as k1 eqn:Ek1.
+      remember (a * qinv / p) as k2 eqn:Ek2.
+      remember (qinv * q / p) as k3 eqn:Ek3.
+      remember (mp - mq) as dm eqn:Edm.
+      exists (a * k3 - k2 * q - k1).
+      assert (Hh' : h = a * qinv - p * k2) by lia.
+      rewrite Hh'.
+      replace ((a * qinv - p * k2) * q + mq - mp) with (a * (qinv * q) - p * k2 * q - dm) by (subst dm; ring).
+      rewrite E3, E1. ring. }
     destruct Hd as [k Hk].
     replace (h * q + mq) with (mp + k * p) by lia.
     apply Z.mod_add. lia. }
@@ -409,3 +412,244 @@ Proof.
   intros r' Hr' E1 E2.
   apply (crt_unique p q r' (h * q + mq) Hp Hq Hg Hr' Hb); congruence.
 Qed.
+
+(* ------------------------------------------------------------------ modular square root *)
+
+(* whatever ModSqrt returns squares back to the argument (the code's final check) *)
+Lemma sqrt_returned_squares_back x m r :
+  0 < m -> modsqrt x m = SqrtOk r -> (r * r) mod m = x mod m.
+Proof.
+  intros Hm H. unfold modsqrt in H. cbv zeta in H.
+  destruct (is_prime_mr m).
+  - destruct (Z.even m); [discriminate|].
+    destruct (if m mod 4 =? 3 then Some (modpow (x mod m) ((m + 1) / 4) m) else tonelli_shanks (x mod m) m) as [c|];
+      [|discriminate].
+    destruct ((c * c) mod m =? x mod m) eqn:E; [|discriminate].
+    injection H as <-. apply Z.eqb_eq. exact E.
+  - destruct (Z.sqrt (x mod m) * Z.sqrt (x mod m) =? x mod m) eqn:E; [|discriminate].
+    injection H as <-. apply Z.eqb_eq in E. rewrite E. apply Z.mod_mod. lia.
+Qed.
+
+Lemma sqrt_result_reduced x m r :
+  0 < m -> is_prime_mr m = true -> m mod 4 = 3 -> modsqrt x m = SqrtOk r -> 0 <= r < m.
+Proof.
+  intros Hm Hp H4 H. unfold modsqrt in H. cbv zeta in H. rewrite Hp in H.
+  destruct (Z.even m); [discriminate|].
+  rewrite H4 in H. cbn [Z.eqb Pos.eqb] in H.
+  destruct ((modpow (x mod m) ((m + 1) / 4) m * modpow (x mod m) ((m + 1) / 4) m) mod m =? x mod m); [|discriminate].
+  injection H as <-.
+  assert (0 <= (m + 1) / 4) by (apply Z.div_pos; lia).
+  rewrite modpow_spec by lia. apply Z.mod_pos_bound. exact Hm.
+Qed.
+
+Section SqrtComplete.
+  (* Euler's criterion, the half that is needed: a non-zero square is a
+     ((p-1)/2)-th root of unity (a consequence of Fermat's little theorem, which
+     is not in the standard library).  Stays a visible hypothesis. *)
+  Hypothesis euler_criterion_square :
+    forall p y, prime p -> 2 < p -> y mod p <> 0 -> ((y * y) ^ ((p - 1) / 2)) mod p = 1.
+
+  (* for p = 3 (mod 4) a root is returned for every quadratic residue
+     (the branch taken is x^((p+1)/4)); is_prime_mr p = true says that the code's
+     primality test selects the prime branch *)
+  Lemma sqrt_prime_complete x p :
+    prime p -> is_prime_mr p = true -> p mod 4 = 3 ->
+    (exists y, (y * y) mod p = x mod p) -> exists r, modsqrt x p = SqrtOk r.
+  Proof.
+    intros Hprime Hmr H4 [y Hy].
+    pose proof (prime_ge_2 p Hprime) as Hp2.
+    assert (Hp3 : 2 < p).
+    { destruct (Z.eq_dec p 2) as [->|]; [cbn in H4; discriminate|lia]. }
+    assert (Hodd : Z.even p = false).
+    { rewrite Zeven_mod. pose proof (Z.div_mod p 4 ltac:(lia)) as E. rewrite H4 in E.
+      replace (p mod 2) with 1; [reflexivity|].
+      rewrite E. replace (4 * (p / 4) + 3) with (1 + (2 * (p / 4) + 1) * 2) by ring.
+      rewrite Z.mod_add by lia. reflexivity. }
+    unfold modsqrt. cbv zeta. rewrite Hmr, Hodd, H4. cbn [Z.eqb Pos.eqb].
+    set (xr := x mod p).
+    assert (Hxr : 0 <= xr < p) by (apply Z.mod_pos_bound; lia).
+    set (k := (p + 1) / 4).
+    assert (Hk : p + 1 = 4 * k).
+    { unfold k. pose proof (Z.div_mod (p + 1) 4 ltac:(lia)) as E.
+      pose proof (Z.div_mod p 4 ltac:(lia)) as E'. rewrite H4 in E'.
+      assert ((p + 1) mod 4 = 0).
+      { rewrite E'. replace (4 * (p / 4) + 3 + 1) with ((p / 4 + 1) * 4) by ring. apply Z.mod_mul. lia. }
+      lia. }
+    assert (Hk0 : 0 < k) by lia.
+    rewrite modpow_spec by lia.
+    assert (Hsq : ((xr ^ k) mod p * ((xr ^ k) mod p)) mod p = xr).
+    { rewrite <- Z.mul_mod by lia. rewrite <- Z.pow_twice_r.
+      assert (He : 2 * k = 1 + (p - 1) / 2).
+      { replace (p - 1) with ((2 * k - 1) * 2) by lia. rewrite Z.div_mul by lia. ring. }
+      rewrite He. rewrite Z.pow_add_r; [|lia|apply Z.div_pos; lia]. rewrite Z.pow_1_r.
+      destruct (Z.eq_dec (y mod p) 0) as [Hy0|Hy0].
+      - (* x = 0 mod p *)
+        assert (xr = 0).
+        { unfold xr. rewrite <- Hy. rewrite Z.mul_mod by lia. rewrite Hy0. reflexivity. }
+        rewrite H. rewrite Z.mul_0_l. apply Z.mod_0_l. lia.
+      - rewrite Z.mul_mod by lia.
+        assert (E : (xr ^ ((p - 1) / 2)) mod p = 1).
+        { unfold xr. rewrite <- Hy. rewrite <- Zpower_mod by lia.
+          apply euler_criterion_square; assumption. }
+        rewrite E. rewrite Z.mul_1_r. rewrite Z.mod_mod by lia. apply Z.mod_small. exact Hxr. }
+    rewrite Hsq. rewrite Z.eqb_refl. eexists; reflexivity.
+  Qed.
+End SqrtComplete.
+
+(* ------------------------------------------------------------------ Jacobi loop *)
+
+Lemma odd_mod8 b : Z.odd b = true ->
+  b mod 8 = 1 \/ b mod 8 = 3 \/ b mod 8 = 5 \/ b mod 8 = 7.
+Proof.
+  intros H. apply Z.odd_spec in H. destruct H as [k Hk].
+  pose proof (Z.div_mod b 8 ltac:(lia)). pose proof (Z.mod_pos_bound b 8 ltac:(lia)). lia.
+Qed.
+
+Lemma jacobi_tab_sq b : Z.odd b = true -> jacobi_tab b * jacobi_tab b = 1.
+Proof.
+  intros H. unfold jacobi_tab. cbv zeta.
+  destruct (odd_mod8 b H) as [E|[E|[E|E]]]; rewrite E; reflexivity.
+Qed.
+
+Lemma land_2 x : Z.land x 2 = if Z.testbit x 1 then 2 else 0.
+Proof.
+  apply Z.bits_inj'. intros n Hn. rewrite Z.land_spec.
+  change 2 with (2 ^ 1) at 1. rewrite Z.pow2_bits_eqb by lia.
+  destruct (Z.eqb_spec 1 n) as [<-|Hne].
+  - rewrite andb_true_r. destruct (Z.testbit x 1); reflexivity.
+  - rewrite andb_false_r. destruct (Z.testbit x 1).
+    + change 2 with (2 ^ 1). rewrite Z.pow2_bits_eqb by lia.
+      symmetry. apply Z.eqb_neq. exact Hne.
+    + symmetry. apply Z.bits_0.
+Qed.
+
+Lemma testbit1_odd x : Z.odd x = true -> Z.testbit x 1 = (x mod 4 =? 3).
+Proof.
+  intros H. apply Z.odd_spec in H. destruct H as [k Hk].
+  pose proof (Z.div_mod x 4 ltac:(lia)) as E4. pose proof (Z.mod_pos_bound x 4 ltac:(lia)) as B4.
+  destruct (Z.testbit x 1) eqn:E.
+  - apply Z.testbit_true in E; [|lia]. change (2 ^ 1) with 2 in E.
+    pose proof (Z.div_mod x 2 ltac:(lia)) as E2. pose proof (Z.mod_pos_bound x 2 ltac:(lia)) as B2.
+    pose proof (Z.div_mod (x / 2) 2 ltac:(lia)) as E3.
+    symmetry. apply Z.eqb_eq. lia.
+  - apply Z.testbit_false in E; [|lia]. change (2 ^ 1) with 2 in E.
+    pose proof (Z.div_mod x 2 ltac:(lia)) as E2. pose proof (Z.mod_pos_bound x 2 ltac:(lia)) as B2.
+    pose proof (Z.div_mod (x / 2) 2 ltac:(lia)) as E3.
+    symmetry. apply Z.eqb_neq. lia.
+Qed.
+
+(* the sign test of the loop, "(a.Byte(0) & b.Byte(0) & 0b10) != 0", is
+   "a = b = 3 (mod 4)" for odd a, b *)
+Lemma recip_bit a b : Z.odd a = true -> Z.odd b = true ->
+  (Z.land (Z.land a b) 2 =? 0) = negb ((a mod 4 =? 3) && (b mod 4 =? 3)).
+Proof.
+  intros Ha Hb. rewrite land_2, Z.land_spec.
+  rewrite (testbit1_odd a Ha), (testbit1_odd b Hb).
+  destruct ((a mod 4 =? 3) && (b mod 4 =? 3)); reflexivity.
+Qed.
+
+(* the inner loop removes exactly the factors of two *)
+Lemma strip2_spec : forall fuel a i,
+  0 < a -> Z.log2 a < Z.of_nat fuel ->
+  let '(a1, j) := strip2 fuel a i in
+  0 < a1 /\ Z.odd a1 = true /\ i <= j /\ a = a1 * 2 ^ (j - i).
+Proof.
+  induction fuel as [|f IH]; intros a i Ha Hf.
+  - pose proof (Z.log2_nonneg a). lia.
+  - cbn [strip2]. destruct (Z.even a) eqn:E.
+    + apply Z.even_spec in E. destruct E as [k Hk].
+      assert (Hk0 : 0 < k) by lia.
+      assert (Hd : a / 2 = k) by (subst a; rewrite Z.mul_comm, Z.div_mul by lia; reflexivity).
+      rewrite Hd.
+      assert (Hl : Z.log2 k < Z.of_nat f).
+      { subst a. rewrite Z.log2_double in Hf by lia. lia. }
+      specialize (IH k (i + 1) Hk0 Hl).
+      destruct (strip2 f k (i + 1)) as [a1 j].
+      destruct IH as (H1 & H2 & H3 & H4).
+      split; [exact H1|]. split; [exact H2|]. split; [lia|].
+      subst a. rewrite H4. replace (j - i) with (Z.succ (j - (i + 1))) by lia.
+      rewrite Z.pow_succ_r by lia. ring.
+    + split; [exact Ha|]. split; [rewrite <- Z.negb_even, E; reflexivity|]. split; [lia|].
+      rewrite Z.sub_diag. cbn. ring.
+Qed.
+
+Section JacobiLoop.
+  (* [jac] is a specification of the Jacobi symbol; the laws below (periodicity,
+     multiplicativity in the numerator, the value at 0, the second supplementary
+     law and quadratic reciprocity — the first supplementary law is not needed by
+     this loop) are not available in the installed libraries and stay visible
+     hypotheses.  The proof content is the loop invariant. *)
+  Variable jac : Z -> Z -> Z.
+  Hypothesis jac_mod : forall a b, 0 < b -> Z.odd b = true -> jac a b = jac (a mod b) b.
+  Hypothesis jac_mul : forall a a' b, 0 < b -> Z.odd b = true -> jac (a * a') b = jac a b * jac a' b.
+  Hypothesis jac_zero : forall b, 0 < b -> Z.odd b = true -> jac 0 b = if b =? 1 then 1 else 0.
+  Hypothesis jac_two : forall b, 0 < b -> Z.odd b = true -> jac 2 b = jacobi_tab b.
+  Hypothesis jac_recip : forall a b, 0 < a -> 0 < b -> Z.odd a = true -> Z.odd b = true ->
+    jac a b = (if (a mod 4 =? 3) && (b mod 4 =? 3) then -1 else 1) * jac b a.
+
+  Lemma jac_pow2 a1 b k : 0 <= k -> 0 < b -> Z.odd b = true ->
+    jac (a1 * 2 ^ k) b = (if Z.odd k then jacobi_tab b else 1) * jac a1 b.
+  Proof.
+    intros Hk Hb Ho. revert k Hk. apply natlike_ind.
+    - rewrite Z.pow_0_r, Z.mul_1_r. change (Z.odd 0) with false. cbv iota. rewrite Z.mul_1_l. reflexivity.
+    - intros k Hk IH. rewrite Z.pow_succ_r by lia.
+      replace (a1 * (2 * 2 ^ k)) with (2 * (a1 * 2 ^ k)) by ring.
+      rewrite jac_mul by assumption. rewrite IH, jac_two by assumption.
+      rewrite Z.odd_succ. rewrite <- Z.negb_odd.
+      pose proof (jacobi_tab_sq b Ho) as Hsq.
+      destruct (Z.odd k); cbn [negb].
+      + rewrite Z.mul_assoc, Hsq. reflexivity.
+      + ring.
+  Qed.
+
+  (* loop invariant: ret * (a / b) is preserved; at exit a = 0 *)
+  Lemma jacobi_loop_correct : forall fuel a b ret r,
+    jacobi_loop fuel a b ret = Some r ->
+    0 <= a -> 0 < b -> Z.odd b = true ->
+    r = ret * jac a b.
+  Proof.
+    induction fuel as [|f IH]; intros a b ret r H Ha Hb Ho; [discriminate|].
+    cbn [jacobi_loop] in H. destruct (a =? 0) eqn:E.
+    - apply Z.eqb_eq in E. subst a. injection H as <-.
+      rewrite jac_zero by assumption. destruct (b =? 1); ring.
+    - apply Z.eqb_neq in E.
+      assert (Ha' : 0 < a) by lia.
+      pose proof (strip2_spec (Z.to_nat (Z.log2 a + 1)) a 0 Ha') as Hs.
+      assert (Hfu : Z.log2 a < Z.of_nat (Z.to_nat (Z.log2 a + 1))).
+      { pose proof (Z.log2_nonneg a). lia. }
+      specialize (Hs Hfu).
+      destruct (strip2 (Z.to_nat (Z.log2 a + 1)) a 0) as [a1 i].
+      destruct Hs as (Ha1 & Hoa1 & Hi & Hfact). rewrite Z.sub_0_r in Hfact.
+      apply IH in H; [| |exact Ha1|exact Hoa1].
+      2:{ apply Z.mod_pos_bound. exact Ha1. }
+      rewrite <- (jac_mod b a1) in H by assumption.
+      rewrite H. rewrite Hfact.
+      rewrite (jac_pow2 a1 b i Hi Hb Ho).
+      rewrite (jac_recip a1 b Ha1 Hb Hoa1 Ho).
+      rewrite (recip_bit a1 b Hoa1 Ho).
+      destruct (Z.odd i); destruct ((a1 mod 4 =? 3) && (b mod 4 =? 3)); cbn [negb]; ring.
+  Qed.
+
+  (* nt.Jacobi: whatever the function returns is the Jacobi symbol; even or
+     non-positive y is refused *)
+  Lemma jacobi_correct x y j : jacobi x y = Some j -> j = jac x y.
+  Proof.
+    unfold jacobi. intros H.
+    destruct ((y <=? 0) || Z.even y) eqn:G; [discriminate|].
+    apply orb_false_iff in G. destruct G as [G1 G2].
+    apply Z.leb_gt in G1.
+    assert (Ho : Z.odd y = true) by (rewrite <- Z.negb_even, G2; reflexivity).
+    apply jacobi_loop_correct in H; [| |exact G1|exact Ho].
+    - rewrite Z.mul_1_l in H. destruct (x <? 0); [|exact H].
+      rewrite <- jac_mod in H by assumption. exact H.
+    - destruct (x <? 0) eqn:L; [apply Z.mod_pos_bound; exact G1|apply Z.ltb_ge in L; exact L].
+  Qed.
+
+  Lemma jacobi_refuses x y : y <= 0 \/ Z.even y = true -> jacobi x y = None.
+  Proof.
+    intros H. unfold jacobi.
+    assert (E : (y <=? 0) || Z.even y = true).
+    { destruct H as [H|H]; [apply Z.leb_le in H; rewrite H; reflexivity|rewrite H; apply orb_true_r]. }
+    rewrite E. reflexivity.
+  Qed.
+End JacobiLoop.
